@@ -36,7 +36,7 @@ func (fr *Frame) allocFresh(st *State, T types.Type, init Term) Term {
 
 func (r *Run) allocated(st *State, t Term) Term {
 	wm := r.heapGet(st, r.eng.heapKeyAlloc())
-	return and(app("Bool", "<=", intLit(0), t), app("Bool", "<=", t, wm))
+	return app("Bool", "<=", t, wm)
 }
 
 // knownFacts: facts assumed of a value of type T that comes from memory / parameters / calls.
@@ -277,10 +277,10 @@ func (fr *Frame) execInstr(ins ssa.Instruction, st *State) {
 				continue
 			}
 			s1 := st.clone()
-			s1.pc = r.def("pc", and(st.pc, d.pc))
+			s1.pc = r.newPC(and(st.pc, d.pc), st.pc)
 			fr.callResolved(s1, d.call, d.fn, d.args, nil, d.pos)
 			s2 := st.clone()
-			s2.pc = r.def("pc", and(st.pc, not(d.pc)))
+			s2.pc = r.newPC(and(st.pc, not(d.pc)), st.pc)
 			m := r.merge([]*State{s1, s2})
 			*st = *m
 		}
@@ -773,7 +773,7 @@ func (r *Run) sliceAppendOne(st *State, fr *Frame, et types.Type, s Term, v Term
 	ref := fr.allocFresh(st, et, Term{})
 	ln := app("Int", "sl_len", s)
 	inner := r.shifted(et, sel(A, app("Int", "sl_arr", s)), app("Int", "sl_off", s))
-	r.heapSet(st, key, store(A, ref, store(inner, ln, v)))
+	r.heapSet(st, key, store(A, ref, store(inner, app("Int", "sl_ix", intLit(0), ln), v)))
 	ncap := r.havoc("cap", "Int")
 	r.assume(st, app("Bool", ">", ncap, ln))
 	return app("Slice", "mk_slice", ref, intLit(0), app("Int", "+", ln, intLit(1)), ncap)
